@@ -8,7 +8,7 @@ Open Scope Z_scope.
 
 (* ------------------------------------------------------------------ abstract syntax *)
 Inductive britem := BChar (c : Z) | BRange (a b : Z) | BNotWord | BSpace.
-Inductive cset := CAny | CDigit | CSpace | CLit (c : Z) | CBr (neg : bool) (items : list britem).
+Inductive cset := CAny | CDigit | CSpace | CLit (c : Z) | CBr (neg : bool) (items : list britem) | CUnion (a b : cset).
 Record item := { i_set : cset; i_min : Z; i_max : option Z }.
 
 (* ------------------------------------------------------------------ meaning *)
@@ -20,13 +20,14 @@ Definition sem_britem (ct : chartab) (b : britem) (c : Z) : bool :=
   | BSpace => ct_space ct c
   end.
 
-Definition sem_cset (ct : chartab) (s : cset) (c : Z) : bool :=
+Fixpoint sem_cset (ct : chartab) (s : cset) (c : Z) : bool :=
   match s with
   | CAny => true                                   (* DOTALL *)
   | CDigit => ct_decimal ct c
   | CSpace => ct_space ct c
   | CLit x => Z.eqb x c
   | CBr neg items => xorb neg (existsb (fun b => sem_britem ct b c) items)
+  | CUnion a b => sem_cset ct a c || sem_cset ct b c      (* (a|b) with single-character alternatives *)
   end.
 
 Fixpoint take_while (p : Z -> bool) (s : str) : nat :=
@@ -83,7 +84,7 @@ Fixpoint parse_br (fuel : nat) (s : str) (first : bool) : option (list britem * 
     end
   end.
 
-Definition parse_atom (s : str) : option (cset * str) :=
+Definition parse_basic (s : str) : option (cset * str) :=
   match s with
   | [] => None
   | c :: r =>
@@ -107,6 +108,25 @@ Definition parse_atom (s : str) : option (cset * str) :=
     else if Z.eqb c 46 then Some (CAny, r)
     else if is_meta c then None
     else Some (CLit c, r)
+  end.
+
+(* after '(' : an alternation of two single-character atoms, (a|b), as with extra letters: ([^\W_]|[.-]) *)
+Definition parse_alt (r : str) : option (cset * str) :=
+  match parse_basic r with
+  | Some (a1, c1 :: r1) =>
+    if Z.eqb c1 124 then
+      match parse_basic r1 with
+      | Some (a2, c2 :: r2) => if Z.eqb c2 41 then Some (CUnion a1 a2, r2) else None
+      | _ => None
+      end
+    else None
+  | _ => None
+  end.
+
+Definition parse_atom (s : str) : option (cset * str) :=
+  match s with
+  | c :: r => if Z.eqb c 40 then parse_alt r else parse_basic s
+  | [] => None
   end.
 
 (* a maximal run of decimal digits, as a number *)
@@ -153,15 +173,6 @@ Fixpoint parse_seq (fuel : nat) (top : bool) (s : str) : option (list item * str
     | c :: r =>
       if Z.eqb c 36 then (if top then Some ([], r) else None)
       else if Z.eqb c 41 then (if top then None else Some ([], r))
-      else if Z.eqb c 40 then
-        (if top then
-           match parse_seq f false r with
-           | Some (inner, r1) =>
-             if starts_quant r1 then None else
-             match parse_seq f true r1 with Some (rest, r2) => Some (inner ++ rest, r2) | None => None end
-           | None => None
-           end
-         else None)
       else
         match parse_atom s with
         | Some (cs, r1) =>
@@ -173,7 +184,16 @@ Fixpoint parse_seq (fuel : nat) (top : bool) (s : str) : option (list item * str
             end
           | None => None
           end
-        | None => None
+        | None =>
+          (* not an atom: a capture group around a sequence, at the top level only *)
+          if Z.eqb c 40 && top then
+            match parse_seq f false r with
+            | Some (inner, r1) =>
+              if starts_quant r1 then None else
+              match parse_seq f true r1 with Some (rest, r2) => Some (inner ++ rest, r2) | None => None end
+            | None => None
+            end
+          else None
         end
     end
   end.
